@@ -8,7 +8,7 @@
 From Coq Require Import NArith List Bool String.
 From Verif Require Import Base.Chars Base.StrX Imports.Import Imports.ImportSet Imports.Format Imports.ImportLex
                           Imports.ImportProofs Imports.ImportLexProofs Imports.ImportSetProofs
-                          Imports.FormatProofs Imports.RoundTripProofs Imports.WidthProofs Imports.FutureProofs Imports.CanonicalProofs.
+                          Imports.FormatProofs Imports.RoundTripProofs Imports.WidthProofs Imports.FutureProofs Imports.CanonicalProofs Imports.Cli Imports.CliProofs.
 Import ListNotations.
 
 (* generic lexer lemma: rendering a token list with separators from {runs of >= 1 spaces, backslash-newline,
@@ -128,6 +128,64 @@ Theorem C11_width_literal_refuted :
     (width_of P < List.length l)%nat /\ l = dec "from aaaaaaaaaaaaaaaaaaaaaaaaaaaaaaa import ("%string.
 Proof. exact width_literal_refuted. Qed.
 Print Assumptions C11_width_literal_refuted.
+
+(* ---- command line / pyproject folding of the pretty-printing options (Imports/Cli.v) ----
+   an explicit --width / --hanging-indent / --align-future is final unless the same option follows it: whatever
+   stands before it - shortcuts included - is irrelevant and a shortcut after it does not undo it *)
+Theorem C11_cli_width_last_wins : forall v before n after, forallb (fun o => negb (sets_width o)) after = true ->
+  v_width (fold_values v (before ++ OWidth n :: after)) = Some n.
+Proof. exact width_last_wins. Qed.
+Print Assumptions C11_cli_width_last_wins.
+
+Theorem C11_cli_hanging_last_wins : forall v before h after, forallb (fun o => negb (sets_hanging o)) after = true ->
+  v_hanging (fold_values v (before ++ OHanging h :: after)) = h.
+Proof. exact hanging_last_wins. Qed.
+Print Assumptions C11_cli_hanging_last_wins.
+
+(* --align-imports survives everything before it; after it only --align-imports or a shortcut (which documents
+   that it sets align_imports) replaces it *)
+Theorem C11_cli_align_last_wins : forall v before c after, forallb (fun o => negb (sets_align o)) after = true ->
+  v_align (fold_values v (before ++ OAlign c :: after)) = c.
+Proof. exact align_last_wins. Qed.
+Print Assumptions C11_cli_align_last_wins.
+
+(* the shortcuts are exactly their documented expansion and leave width / hanging_indent / align_future alone *)
+Theorem C11_cli_uniform_is_its_expansion : forall v,
+  apply_option v OUniform = fold_values v [OSeparate false; OFromSpaces 3; OAlign [32]].
+Proof. exact uniform_is_its_expansion. Qed.
+Print Assumptions C11_cli_uniform_is_its_expansion.
+
+Theorem C11_cli_unaligned_is_its_expansion : forall v,
+  apply_option v OUnaligned = fold_values v [OSeparate true; OFromSpaces 1; OAlign [0]].
+Proof. exact unaligned_is_its_expansion. Qed.
+Print Assumptions C11_cli_unaligned_is_its_expansion.
+
+Theorem C11_cli_shortcuts_keep_width_hanging_future : forall v opts, forallb is_shortcut opts = true ->
+  v_width (fold_values v opts) = v_width v /\ v_hanging (fold_values v opts) = v_hanging v /\
+  v_align_future (fold_values v opts) = v_align_future v.
+Proof. exact shortcuts_keep_width_hanging_future. Qed.
+Print Assumptions C11_cli_shortcuts_keep_width_hanging_future.
+
+(* precedence command line > [tool.pyflyby] > defaults *)
+Theorem C11_cli_cmdline_over_pyproject_width : forall py cmd n after before,
+  cmd = before ++ OWidth n :: after -> forallb (fun o => negb (sets_width o)) after = true ->
+  max_line_length (fold_format_options py cmd) = Some n.
+Proof. exact cmdline_over_pyproject_width. Qed.
+Print Assumptions C11_cli_cmdline_over_pyproject_width.
+
+Theorem C11_cli_pyproject_when_cmdline_silent : forall py cmd,
+  (forallb (fun o => negb (sets_width o)) cmd = true ->
+     max_line_length (fold_format_options py cmd) = v_width (fold_values cli_defaults py)) /\
+  (forallb (fun o => negb (sets_hanging o)) cmd = true ->
+     hanging (fold_format_options py cmd) = v_hanging (fold_values cli_defaults py)).
+Proof. exact pyproject_when_cmdline_silent. Qed.
+Print Assumptions C11_cli_pyproject_when_cmdline_silent.
+
+Example C11_cli_nonvacuous :
+  fold_format_options [OWidth 60] [OWidth 40; OHanging Auto; OUniform] =
+    mkParams (Some 40) 4 Auto (AlignCols [32]) 3 false false
+  /\ fold_format_options [OWidth 60; OHanging Always] [OUnaligned] = mkParams (Some 60) 4 Always (AlignBool false) 1 true false.
+Proof. split; reflexivity. Qed.
 
 (* non-vacuity: a concrete set (from-imports with aliases, plain, aliased plain, relative star, __future__)
    satisfies the hypotheses and is printed with wrapped, parenthesised statements *)
